@@ -15,7 +15,7 @@ fn main() {
             std::env::set_var("SEQ_TIER", &tier);
             let seed = driver::seed_from_env();
             let workers: u64 = std::env::var("VERIF_WORKERS").ok().and_then(|s| s.parse().ok()).unwrap_or(16);
-            let base: u32 = if tier == "thorough" { 400_000 } else { 12_000 };
+            let base: u32 = if tier == "thorough" { 1_000_000 } else { 40_000 };
             let code = driver::run_parent(
                 &eng,
                 ParentCfg {
